@@ -35,6 +35,7 @@ Anything else raises TranslatorError (treated like a broken proof by the runner)
 from __future__ import annotations
 
 import ast
+import copy
 import socket
 import struct
 
@@ -86,6 +87,52 @@ def _fn(cls, name):
     return f
 
 
+class _Subst(ast.NodeTransformer):
+    def __init__(self, mapping):
+        self.mapping = mapping
+
+    def visit_Name(self, node):
+        if node.id in self.mapping:
+            return copy.deepcopy(self.mapping[node.id])
+        return node
+
+
+def _inline_helpers(cls, body):
+    """Replace every top-level statement `self._helper(a, b, ...)` — a private method of the same class whose body is a
+    straight line of statements without `return <value>`, called with positional arguments — by the helper's body with the
+    parameters substituted by the argument expressions.  (The arguments of the handlers' helpers are attribute reads and
+    names: evaluating them once or several times is the same.)"""
+    out = []
+    for st in body:
+        c = st.value if isinstance(st, ast.Expr) else None
+        if (isinstance(c, ast.Call) and isinstance(c.func, ast.Attribute) and isinstance(c.func.value, ast.Name)
+                and c.func.value.id == "self" and c.func.attr.startswith("_") and not c.func.attr.startswith("__")
+                and not c.keywords and not any(isinstance(a, ast.Starred) for a in c.args)):
+            h = next((n for n in cls.body if isinstance(n, ast.FunctionDef) and n.name == c.func.attr), None)
+            if h is not None and not h.decorator_list:
+                params = [a.arg for a in h.args.args][1:]
+                hb = _body_raw(h)
+                pure_args = all(isinstance(a, (ast.Name, ast.Attribute, ast.Constant)) for a in c.args)
+                straight = not any(isinstance(n, (ast.Return, ast.Yield, ast.YieldFrom, ast.Await, ast.Nonlocal, ast.Global))
+                                   for x in hb for n in ast.walk(x))
+                assigned = {t.id for x in hb for n in ast.walk(x) if isinstance(n, ast.Assign)
+                            for t in n.targets if isinstance(t, ast.Name)}
+                if len(params) == len(c.args) and pure_args and straight and not (assigned & set(params)) \
+                        and not h.args.vararg and not h.args.kwarg and not h.args.kwonlyargs:
+                    sub = _Subst(dict(zip(params, c.args)))
+                    out += _inline_helpers(cls, [ast.fix_missing_locations(sub.visit(copy.deepcopy(x))) for x in hb])
+                    continue
+        out.append(st)
+    return out
+
+
+def _body_raw(fn):
+    b = list(fn.body)
+    if b and isinstance(b[0], ast.Expr) and isinstance(b[0].value, ast.Constant) and isinstance(b[0].value.value, str):
+        b = b[1:]
+    return b
+
+
 def _body(fn):
     b = list(fn.body)
     if b and isinstance(b[0], ast.Expr) and isinstance(b[0].value, ast.Constant) and isinstance(b[0].value.value, str):
@@ -117,15 +164,23 @@ class Tr:
         self.locals = set(locals_)
         self.params = set(params)
         self.auto_locals = auto_locals
+        self.truth: dict[str, str] = {}
 
     def fail(self, node, why):
         raise TranslatorError(f"{self.where}: {why}: `{_src(node)}`")
 
     def expr(self, e) -> str:
         if isinstance(e, ast.Name):
+            if e.id in self.truth:
+                return self.truth[e.id]          # `if introduction:` -> is there a peer to introduce
             if e.id in self.locals or e.id in self.params:
                 return e.id
             self.fail(e, "unknown name")
+        if isinstance(e, ast.Compare) and len(e.ops) == 1 and isinstance(e.ops[0], (ast.Is, ast.IsNot)) \
+                and isinstance(e.left, ast.Name) and e.left.id in self.truth \
+                and isinstance(e.comparators[0], ast.Constant) and e.comparators[0].value is None:
+            t = self.truth[e.left.id]
+            return f"(!{t})" if isinstance(e.ops[0], ast.Is) else t
         if isinstance(e, ast.Constant) and isinstance(e.value, bool):
             return "true" if e.value else "false"
         if _is_zero_addr(e):
@@ -243,12 +298,34 @@ def lan_subnets(ep_tree) -> list[tuple[int, int]]:
                 table = ast.literal_eval(st.value)
             except ValueError as e:
                 raise TranslatorError("address_in_lan_subnets: lan_subnets is not a literal") from e
-    if table is None:
-        raise TranslatorError("address_in_lan_subnets: no literal `lan_subnets` table")
     ret = _body(fn)[-1]
-    want = "return any((self._address_in_subnet(address, subnet) for subnet in lan_subnets))"
-    if not (isinstance(ret, ast.Return) and "lan_subnets" in _src(ret)):
-        raise TranslatorError(f"address_in_lan_subnets: the result does not depend on the `lan_subnets` table: `{_src(ret)}`")
+    tname = "lan_subnets"
+    if table is None:
+        # the table may be a named constant of the module or of the class: resolve the name the result iterates over
+        consts = {}
+        for scope in (ep_tree.body, cls.body):
+            for st in scope:
+                tgt = st.targets[0] if isinstance(st, ast.Assign) and len(st.targets) == 1 else \
+                    (st.target if isinstance(st, ast.AnnAssign) and st.value is not None else None)
+                if isinstance(tgt, ast.Name):
+                    try:
+                        consts[tgt.id] = ast.literal_eval(st.value)
+                    except (ValueError, SyntaxError):
+                        pass
+        used = [n.id for n in ast.walk(ret) if isinstance(n, ast.Name) and n.id in consts] + \
+               [n.attr for n in ast.walk(ret) if isinstance(n, ast.Attribute) and n.attr in consts]
+        if len(set(used)) != 1:
+            raise TranslatorError("address_in_lan_subnets: no literal `lan_subnets` table (local, module or class constant)")
+        tname = used[0]
+        table = consts[tname]
+        # the constant must not be rebound anywhere else in the module
+        rebinds = [n for n in ast.walk(ep_tree) if isinstance(n, (ast.Assign, ast.AugAssign, ast.AnnAssign))
+                   and any(isinstance(t, ast.Name) and t.id == tname
+                           for t in (n.targets if isinstance(n, ast.Assign) else [n.target]))]
+        if len(rebinds) != 1:
+            raise TranslatorError(f"address_in_lan_subnets: constant `{tname}` is bound {len(rebinds)} times")
+    if not (isinstance(ret, ast.Return) and tname in _src(ret)):
+        raise TranslatorError(f"address_in_lan_subnets: the result does not depend on the `{tname}` table: `{_src(ret)}`")
     out = []
     for ent in table:
         if not (isinstance(ent, tuple) and len(ent) == 2 and isinstance(ent[0], str) and isinstance(ent[1], int)
@@ -343,7 +420,7 @@ def puncture_sends(com_cls) -> str:
 
 def intro_response_parts(com_cls) -> str:
     fn = _fn(com_cls, "on_introduction_response")
-    body = _body(fn)
+    body = _inline_helpers(com_cls, _body(fn))
     # (1) first statement: the my_estimated_wan update
     st0 = body[0]
     if not (isinstance(st0, ast.If) and not st0.orelse and len(st0.body) == 1
@@ -416,24 +493,62 @@ def create_response_parts(com_cls) -> str:
         raise TranslatorError(f"create_introduction_response: unexpected parameters {argn}")
     body = _body(fn)
     srcs = [_src(s) for s in body]
-    for need in ("introduction_lan = ('0.0.0.0', 0)", "introduction_wan = ('0.0.0.0', 0)", "introduced = False",
-                 "other = self.network.get_verified_by_address(socket_address)"):
-        if need not in srcs:
-            raise TranslatorError(f"create_introduction_response: statement `{need}` not found")
-    pick = next((s for s in body if isinstance(s, ast.If) and _src(s.test) == "not introduction"), None)
+    if "other = self.network.get_verified_by_address(socket_address)" not in srcs:
+        raise TranslatorError("create_introduction_response: `other = self.network.get_verified_by_address(socket_address)` not found")
+    pick = next((s for s in body if isinstance(s, ast.If) and _src(s.test) == "not introduction" and not s.orelse
+                 and len(s.body) == 1 and _src(s.body[0]).startswith("introduction = ")), None)
     if pick is None or _src(pick.body[0]) != \
             "introduction = self.get_peer_for_introduction(exclude=other, new_style=new_style)":
         raise TranslatorError("create_introduction_response: candidate selection differs from "
                               "`get_peer_for_introduction(exclude=other, new_style=new_style)`")
-    blk = next((s for s in body if isinstance(s, ast.If) and _src(s.test) == "introduction"), None)
-    if blk is None or blk.orelse:
-        raise TranslatorError("create_introduction_response: `if introduction:` block not found")
-    tr = Tr("create_introduction_response", {"introduction_lan", "introduction_wan", "introduced"}, set())
-    lines = tr.stmts(blk.body, 1)
-    out = ("/-- create_introduction_response, `if introduction:` block: (introduction_lan, introduction_wan, introduced) -/\n"
-           "def introAddrs (self : SelfView) (introduction : PeerView) : Addr × Addr × Bool := Id.run do\n"
+    # The statements that decide introduction_lan / introduction_wan (/ the `introduced` flag), in source order, whatever their
+    # nesting: defaults + `if introduction:` block, or one flat if/elif/else chain.  They are translated as ONE function of
+    # "is there a peer to introduce" (`present`) and that peer; `new_style_intro` bookkeeping is checked and left out.
+    DEC = {"introduction_lan", "introduction_wan", "introduced"}
+    NS_OK = {"False", "introduction.new_style_intro", "introduction.new_style_intro if introduction else False"}
+
+    def assigns(st):
+        return {t.id for n in ast.walk(st) if isinstance(n, ast.Assign) for t in n.targets if isinstance(t, ast.Name)}
+
+    class DropNs(ast.NodeTransformer):
+        def visit_Assign(self, node):
+            if len(node.targets) == 1 and isinstance(node.targets[0], ast.Name) and node.targets[0].id == "new_style_intro":
+                if _src(node.value) not in NS_OK:
+                    raise TranslatorError(f"create_introduction_response: unexpected new_style_intro value `{_src(node.value)}`")
+                return None
+            return node
+    region = []
+    for st in body[body.index(pick) + 1:] + body[:body.index(pick)]:
+        pass
+    for st in body:
+        if st is pick:
+            continue
+        if isinstance(st, (ast.Assign, ast.If)) and assigns(st) & DEC and "Payload(" not in _src(st):
+            if isinstance(st, ast.If) and body.index(st) < body.index(pick):
+                raise TranslatorError("create_introduction_response: addresses are decided before the candidate is selected")
+            region.append(ast.fix_missing_locations(DropNs().visit(copy.deepcopy(st))))
+    if not region:
+        raise TranslatorError("create_introduction_response: no statement decides introduction_lan / introduction_wan")
+    # the puncture request is guarded by an `if` whose body builds it with self.create_puncture_request
+    pr = next((s for s in body if isinstance(s, ast.If) and not s.orelse and len(s.body) == 2
+               and "self.create_puncture_request(" in _src(s.body[0])), None)
+    if pr is None:
+        raise TranslatorError("create_introduction_response: the guarded puncture request block was not found")
+    if body.index(pr) < max(body.index(x) for x in body if assigns(x) & DEC and "Payload(" not in _src(x)):
+        raise TranslatorError("create_introduction_response: the puncture request is sent before the addresses are decided")
+    tr = Tr("create_introduction_response", set(DEC), set())
+    tr.truth = {"introduction": "present"}
+    lines = tr.stmts(region, 1)
+    guard = tr.expr(pr.test)
+    out = ("/-- create_introduction_response: (introduction_lan, introduction_wan, is the puncture request sent) as decided for\n"
+           "    `present` = there is a peer to introduce, and that peer -/\n"
+           "def introAddrsGen (self : SelfView) (present : Bool) (introduction : PeerView) : Addr × Addr × Bool := Id.run do\n"
            "  let mut introduction_lan := Addr.zero\n  let mut introduction_wan := Addr.zero\n  let mut introduced := false\n"
-           + "\n".join(lines) + "\n  return (introduction_lan, introduction_wan, introduced)\n\n")
+           + "\n".join(lines) + f"\n  return (introduction_lan, introduction_wan, {guard})\n\n"
+           "/-- … when a peer is introduced -/\n"
+           "def introAddrs (self : SelfView) (introduction : PeerView) : Addr × Addr × Bool := introAddrsGen self true introduction\n\n"
+           "/-- … when there is nobody to introduce -/\n"
+           "def introNobody (self : SelfView) : Addr × Addr × Bool := introAddrsGen self false ⟨Addr.zero, none⟩\n\n")
     # payload address arguments, both styles
     trp = Tr("create_introduction_response", set(), {"socket_address", "lan_socket_address", "introduction_lan",
                                                      "introduction_wan"})
@@ -462,9 +577,6 @@ def create_response_parts(com_cls) -> str:
             "def respFields (self : SelfView) (socket_address introduction_lan introduction_wan : Addr) : IntroRespView :=\n"
             f"  ⟨{fn_old[0]}, {fn_old[1]}, {fn_old[2]}, {fn_old[3]}, {fn_old[4]}⟩\n\n")
     # the puncture request
-    pr = next((s for s in body if isinstance(s, ast.If) and _src(s.test) == "introduced and introduction is not None"), None)
-    if pr is None or len(pr.body) != 2:
-        raise TranslatorError("create_introduction_response: `if introduced and introduction is not None:` block not found")
     mk, snd = pr.body
     if not (isinstance(mk, ast.Assign) and isinstance(mk.value, ast.Call)
             and _src(mk.value.func) == "self.create_puncture_request" and len(mk.value.args) == 3):
@@ -489,7 +601,7 @@ def create_response_parts(com_cls) -> str:
 
 def intro_request_parts(com_cls) -> str:
     fn = _fn(com_cls, "on_introduction_request")
-    body = _body(fn)
+    body = _inline_helpers(com_cls, _body(fn))
     # the capacity guard: `if <chain over 0, self.max_peers, len(self.get_peers())>: <log>; return`
     g = body[0]
     if not (isinstance(g, ast.If) and not g.orelse and isinstance(g.body[-1], ast.Return) and g.body[-1].value is None
